@@ -23,7 +23,7 @@ def step (st : St) (ws : List String) (j : Json) : St × String :=
   -- the follow-up of that change must be pending (`guaranteed_methods_leave_pending`)
   if op == "finishclaimed" then
     (if ret == "ok:pending" then (st, "ok finishclaimed:followup-pending")
-     else if ret == "ok:nothing-claimed" then (st, "ok trivial:finishclaimed")
+     else if ret == "ok:nothing-claimed" || ret == "ok:idle" then (st, "ok trivial:finishclaimed")
      else (st, s!"FAIL oracle followup_pending_after_commit {ret}")) else
   if !singleRequest op then (st, s!"ok trivial:{op}") else
   let succ := (jarr (jget j "cmds")).filter fun c =>
